@@ -266,8 +266,10 @@ def assert_invariant(eng, ref, where, props=None, exempt=()):
             parts.append(('objinv.%s:%s.%s' % (where, field, nm), z3.Implies(present, p)))
     if not parts:
         return
-    o = eng.prove('objinv.%s:*' % where, z3.And([c_ for _, c_ in parts]), kind='objinv', props=props or k.props,
-                  assume_after=False)
+    # the invariant belongs to the properties of its class AND to those of the unit that has to maintain it here
+    own = list(eng.contract.props) if getattr(eng, 'contract', None) is not None else []
+    o = eng.prove('objinv.%s:*' % where, z3.And([c_ for _, c_ in parts]), kind='objinv',
+                  props=props or sorted(set(k.props) | set(own)), assume_after=False)
     o.parts = parts
 
 
